@@ -253,6 +253,11 @@ func genC11(r *rand.Rand, run int, _ string) *Scenario {
 		return genJanitorRace(r)
 	}
 
+	if run%5 == 3 {
+		// concurrent phase with the janitor running, then quiet cycles
+		return genConcQuiet(r, "C11")
+	}
+
 	sc := genBEBase(r, "janitor")
 	be := sc.BE
 	dea := pick(r, sec, 10*sec, 60*sec, 3600*sec, 24*3600*sec)
@@ -513,6 +518,10 @@ func (en *mEntry) describe() string {
 func genC12(r *rand.Rand, run int, _ string) *Scenario {
 	if run%5 == 4 {
 		return genC12Conc(r)
+	}
+
+	if run%5 == 3 {
+		return genConcQuiet(r, "C12")
 	}
 
 	sc := genBEBase(r, "evict")
